@@ -18,3 +18,4 @@ import MicroHttp.Props.C10History
 #print axioms MicroHttp.C10.step_inv
 #print axioms MicroHttp.C10.history_inv
 #print axioms MicroHttp.C10.reachable
+#print axioms MicroHttp.Tables.no_shared_state
